@@ -7,7 +7,21 @@ sys.path.insert(0, os.path.join(V, 'lib'))
 import witness
 seed = int(sys.argv[1]) if len(sys.argv) > 1 else 1
 bad = 0
-keys = sorted(set(witness.KERNEL_OPS))
+keys = sorted(set(witness.KERNEL_OPS)) + [
+    "binops::add_sub::impl Add<&Decimal> for &Decimal where Decimal: Add<Decimal>::add",
+    "binops::add_sub::impl<'a> Sub<Decimal> for &'a Decimal where Decimal: Sub<Decimal>::sub",
+    "binops::mul::impl Mul<&Decimal> for Decimal where Decimal: Mul<Decimal>::mul",
+    "binops::div::impl Div<&Decimal> for &i128::div",
+    "binops::rem::impl Rem<&i64> for &Decimal::rem",
+    "binops::checked_add_sub::impl CheckedAdd<&Decimal> for &Decimal::checked_add",
+    "binops::checked_rem::impl CheckedRem<&Decimal> for i32::checked_rem",
+    "binops::checked_div::impl CheckedDiv<&i128> for &Decimal::checked_div",
+    "binops::checked_mul::impl CheckedMul<&Decimal> for u64::checked_mul",
+    "binops::cmp::impl PartialOrd<Decimal> for i128::partial_cmp",
+    "binops::cmp::impl PartialOrd<i8> for Decimal::partial_cmp",
+    "binops::cmp::impl PartialEq<Decimal> for u64::eq",
+    "binops::cmp::impl Ord for Decimal::cmp",
+]
 for k in keys:
     t0 = time.time()
     w = witness.search('SELFTEST', None, None, {'fn': k}, 'quick', seed, budget=40)
